@@ -72,13 +72,13 @@ def correspond(ctx):
 
     S.Path.check = stressed
     try:
-        n = ctx.scale(30, 700)
+        n = ctx.scale(30, 400)
         sevmcheck.run(ctx, ID, dict(FEATURES), n_scenarios=n, n_random_inputs=ctx.scale(6, 12), cfgs=CFGS, malformed=ctx.scale(10, 150))
         state["on"] = True
         sevmcheck.run(ctx, ID, dict(FEATURES), n_scenarios=n, n_random_inputs=ctx.scale(6, 12), cfgs=CFGS, corpus=False)
         # (iv) symbolic JUMP destinations under --symbolic-jump
         state["on"] = False
-        sevmcheck.run(ctx, ID, {}, n_scenarios=ctx.scale(24, 600), n_random_inputs=ctx.scale(8, 12),
+        sevmcheck.run(ctx, ID, {}, n_scenarios=ctx.scale(24, 300), n_random_inputs=ctx.scale(8, 12),
                       cfgs=[{"symbolic_jump": True}, {"symbolic_jump": True, "solver_timeout_branching": 0}], gen=gen_symjump, corpus=False)
         # (v) code with symbolic immutables (concrete | PUSH32 <symbolic word> | concrete), jump destinations after the holes
         from vlib import proggen
@@ -94,7 +94,7 @@ def correspond(ctx):
                       gen=lambda rng: proggen.gen_concrete_grid(rng, next(grid_ops)), corpus=False)
         plan = proggen.wordmix_plan() * 2
         it = iter(plan)
-        sevmcheck.run(ctx, ID, {}, n_scenarios=len(plan) + ctx.scale(20, 1500), n_random_inputs=ctx.scale(4, 10), cfgs=[{}],
+        sevmcheck.run(ctx, ID, {}, n_scenarios=len(plan) + ctx.scale(20, 500), n_random_inputs=ctx.scale(4, 10), cfgs=[{}],
                       gen=lambda rng: proggen.gen_wordmix(rng, next(it, None)), corpus=False)
     finally:
         S.Path.check = orig
